@@ -267,7 +267,7 @@ func TestCheck(t *testing.T) {
 				judge(c, w)
 				w.Eval(crosses(a, b))
 				if i%16 == 0 {
-					for _, step := range []int64{0, 7, 31, 365, 366} {
+					for _, step := range []int64{0, 7, 31, 365, 366, 106750, 106751, 106752, 146097} {
 						if ref.Ord0+i+step <= ref.OrdEnd {
 							c2 := Case{Kind: "pair", A: a, B: civil(ref.Ord0 + i + step)}
 							judge(c2, w)
@@ -301,6 +301,22 @@ func TestCheck(t *testing.T) {
 		})
 	})
 	r.Exhaustive(fmt.Sprintf("all pairs of the %d-date boundary set", nb))
+
+	// Phase B2: years far outside 0000-9999 (negative, beyond 9999, near the int32 limits) against each other and ordinary dates.
+	r.Phase("B2: all ordered pairs of dates in extreme years (-2147483647 .. 2147483646) and ordinary years", func() {
+		var pts []YMD
+		for _, y := range []int64{-2147483647, -2000000000, -1500000000, -1073741824, -999999999, -20000, -10000, -9999, -401, -400, -399, -1, 0, 1, 1970, 9999, 10000, 20000, 999999999, 1073741824, 1500000000, 2000000000, 2147483646} {
+			pts = append(pts, YMD{y, 1, 1}, YMD{y, 12, 31}, YMD{y, 3, 1})
+		}
+		np := int64(len(pts))
+		r.Parallel(np*np, np, func(w *vkit.W, lo, hi int64) {
+			for k := lo; k < hi; k++ {
+				c := Case{Kind: "pair", A: pts[k/np], B: pts[k%np]}
+				judge(c, w)
+				w.Eval(true)
+			}
+		})
+	})
 
 	// Add grid
 	addBase := boundarySet(r.Pick(600, 4000))
